@@ -202,14 +202,16 @@ static inline Table gen_flat_table(const FlatOpts& o) {
     t.root.name = "schema"; t.root.leaf = false;
     int ncols = 1 + (int)draw((uint32_t)o.max_cols);
     if (o.allow_wide && draw(60) == 59) ncols = 70 + (int)draw(230);
+    if (o.allow_wide && g_row_cap == 0 && draw(12000) == 11999) ncols = 9990 + (int)draw(20);      // around the 10000-element limit the footer parser sets itself
     else if (o.allow_medium && draw(12) == 11) ncols = 9 + (int)draw(12);      // 9..20: crosses the 15-element Thrift list-header switch
     for (int i = 0; i < ncols; i++) t.root.kids.push_back(gen_flat_leaf(i, o.allow_optional));
     derive_leaves(t);
     int nrg = 1 + (int)draw((uint32_t)o.max_rgs);
     if (o.allow_medium && draw(16) == 15) nrg = 5 + (int)draw(14);                 // 5..18 row groups
+    if (ncols > 1000) nrg = 1;
     for (int g = 0; g < nrg; g++) {
         RowGroup rg;
-        rg.rows = (ncols > 8 || nrg > 4) ? (int64_t)draw(20) : gen_rows(o.allow_big && ncols <= 4);
+        rg.rows = ncols > 1000 ? (int64_t)draw(3) : (ncols > 8 || nrg > 4) ? (int64_t)draw(20) : gen_rows(o.allow_big && ncols <= 4);
         rg.cols.resize(t.cols.size());
         for (size_t c = 0; c < t.cols.size(); c++) fill_chunk(rg.cols[c], t.cols[c], rg.rows);
         t.rgs.push_back(rg);
